@@ -3,6 +3,7 @@ package main
 import (
 	"context"
 	"fmt"
+	"github.com/alicebob/miniredis/v2"
 	"net/http"
 	"net/url"
 	"strings"
@@ -287,5 +288,80 @@ func systemLogin(r *Run) {
 		}
 		r.Dist["system-level-flow"]++
 		r.Case(fmt.Sprintf("system-%v", withRules))
+	}
+}
+
+// systemCookielessCallback: the same through the filter as assembled at start-up (real factory, real stores - nothing of
+// the harness between handler and store): a pending login's callback URL replayed without the session cookie.
+func systemCookielessCallback(r *Run, tag string) {
+	for _, useRedis := range []bool{false, true} {
+		if r.unknownViolations() > 0 {
+			return
+		}
+		idp := newFakeIDP()
+		ctx, cancel := context.WithCancel(context.Background())
+		oc := &oidcv1.OIDCConfig{ClientId: "sysclient", ClientSecretConfig: &oidcv1.OIDCConfig_ClientSecret{ClientSecret: "syssecret"},
+			CallbackUri: "https://app.example.com/callback", AuthorizationUri: "https://idp.example.com/auth", TokenUri: idp.srv.URL + "/token",
+			Scopes: []string{"openid"}, IdToken: &oidcv1.TokenConfig{Header: "authorization", Preamble: "Bearer"}, JwksConfig: &oidcv1.OIDCConfig_Jwks{Jwks: "x"}}
+		var mr *miniredis.Miniredis
+		if useRedis {
+			var err error
+			mr, err = miniredis.Run()
+			must(err)
+			oc.RedisSessionStoreConfig = &oidcv1.RedisConfig{ServerUri: "redis://" + mr.Addr()}
+		}
+		cfg := &configv1.Config{Chains: []*configv1.FilterChain{{Name: "c", Filters: []*configv1.Filter{{Type: &configv1.Filter_Oidc{Oidc: oc}}}}}}
+		f := oidc.NewSessionStoreFactory(cfg)
+		must(f.PreRun())
+		filter := server.NewExtAuthZFilter(cfg, internal.NewTLSConfigPool(ctx), staticJWKS{}, f)
+		check := func(path, cookie string) *envoy.CheckResponse {
+			h := map[string]string{}
+			if cookie != "" {
+				h["cookie"] = cookie
+			}
+			resp, err := filter.Check(context.Background(), httpReq("https", "app.example.com", path, "", h))
+			if err != nil || resp == nil {
+				return &envoy.CheckResponse{}
+			}
+			return resp
+		}
+		orig := "/private/report?id=7"
+		r1 := check(orig, "")
+		loc, _ := hdrValue(r1.GetDeniedResponse().GetHeaders(), "location")
+		sck, _ := hdrValue(r1.GetDeniedResponse().GetHeaders(), "set-cookie")
+		u, _ := url.Parse(loc)
+		cs := (&http.Response{Header: http.Header{"Set-Cookie": []string{sck}}}).Cookies()
+		if u != nil && len(cs) == 1 && u.Query().Get("state") != "" {
+			idp.set(idpAnswer{Kind: "body", TokenType: "Bearer", Access: "sys-access",
+				ID: mintToken(tokSpec{Mode: "good", Exp: time.Now().Unix() + 600, Aud: "sysclient", Nonce: u.Query().Get("nonce"), Sub: "u", Extra: "cookieless"})})
+			idp.take()
+			for _, cookie := range []string{"", "theme=dark"} {
+				r2 := check("/callback?code=c1&state="+u.Query().Get("state"), cookie)
+				loc2, _ := hdrValue(r2.GetDeniedResponse().GetHeaders(), "location")
+				sck2, _ := hdrValue(r2.GetDeniedResponse().GetHeaders(), "set-cookie")
+				recs := idp.take()
+				store := "memory"
+				if useRedis {
+					store = "redis"
+				}
+				switch {
+				case len(recs) > 0:
+					r.Violate(tag+" a token request was made on behalf of a callback that carried no session cookie (the pending login was located by its state parameter)",
+						map[string]any{"store": store, "cookie_header": cookie, "answer": showResp(r2, nil)})
+				case loc2 == "https://app.example.com"+orig:
+					r.Violate(tag+" a callback that carried no session cookie completed a pending login", map[string]any{"store": store, "cookie_header": cookie, "answer": showResp(r2, nil)})
+				case strings.Contains(sck2, cs[0].Value):
+					r.Violate(tag+" a request that carried no session cookie was handed the session id of a pending login in a Set-Cookie: the id is obtainable from the state parameter",
+						map[string]any{"store": store, "cookie_header": cookie, "answer": showResp(r2, nil)})
+				}
+			}
+		}
+		r.Dist["system-level:cookieless-callback"]++
+		r.Case(fmt.Sprintf("system-cookieless|%v", useRedis))
+		cancel()
+		idp.srv.Close()
+		if mr != nil {
+			mr.Close()
+		}
 	}
 }
